@@ -1,4 +1,5 @@
 """C17 -- network exposure predicates reflect the address range denoted."""
+import copy
 import ipaddress
 import json
 
@@ -112,7 +113,13 @@ def load(x):
     t, extra = build_template(x)
     m = pycfmodel.parse(t)
     if x["stage"] == "resolve" or x["via"] != "literal":
-        m = m.resolve(extra_params=dict(extra))
+        e = dict(extra)
+        if x.get("again"):
+            # a caller that keeps ONE dict of stack parameters and resolves more than once: the answer asked about is the later one
+            m.resolve(extra_params=e)
+            if x["again"] == 2:
+                pycfmodel.parse(copy.deepcopy(t)).resolve(extra_params=e)
+        m = m.resolve(extra_params=e)
     r = m.Resources["R"]
     kind = x["kind"]
     pos = 1 if x.get("pos") else 0
@@ -557,6 +564,9 @@ def gen_rule_case(rng):
         x["shadowed_default"] = True
     if x["via"] != "literal":
         x["stage"] = "resolve"
+    if x["stage"] == "resolve" and rng.random() < 0.3:
+        x["again"] = rng.choice([1, 1, 2])
+        tags.append("again")
     x["t"] = sorted(set(tags))
     return x
 
@@ -576,6 +586,9 @@ def gen_rds_case(rng):
         x["via"] = "literal"
     if x["via"] != "literal":
         x["stage"] = "resolve"
+    if x["stage"] == "resolve" and rng.random() < 0.3:
+        x["again"] = rng.choice([1, 1, 2])
+        tags.append("again")
     x["t"] = sorted(set(tags))
     return x
 
